@@ -15,6 +15,12 @@ where
         return Ok(List::empty());
     }
 
+    // The tree can hold more than `N` elements when `N` is not a power of two (or is smaller
+    // than the packing factor), so the length must be checked against `N` explicitly.
+    if n > N::to_usize() {
+        return Err(Error::BuilderFull);
+    }
+
     // Keep a list of nodes at the current level and their multiplicity.
     // In the common case where `n` is not divisible by the packing factor then part of the
     // tree will be slightly different from the bulk repeated part.
